@@ -233,6 +233,11 @@ def failingLookups (H : Hier) (S : Setup) (top : Ty) (kinds : List RegKind) :
          | some ρ => lossy ++ ((newOpMap H ρ.handlers ρ.autoOps t kw).filterMap (fun p =>
              if (ρ.coverOf p.1).contains t && !(H.sub t t) then some (i, p.1) else none))
          | none => lossy)
+      | .registerOp i op _ false order =>
+        (match w[i]? with
+         | some ρ => if order.any (fun t => (ρ.coverOf op).contains t && !(H.sub t t))
+             then lossy ++ [(i, op)] else lossy
+         | none => lossy)
       | _ => lossy
     here ++ failingLookups H S top kinds (n + 1) (refStep H w a) memo' lossy' as os
 
@@ -247,6 +252,8 @@ def run (j : Json) : Except String Json := do
   let implTrees ← treesOfJson (← impl.getObjVal? "trees")
   let implInit ← treesOfJson (← impl.getObjVal? "init_trees")
   if obs.length != cacts.length then throw "impl.obs does not align with actions"
+  if !(hierWF H tab.top uni) then
+    return Json.mkObj [("skip", true), ("why", "isinstance/issubclass/__mro__ of this hierarchy are not coherent (outside the property's family)")]
   let S := genSetup
   let w0 := kinds.map (mkReg H S orders)
   let initAgree := (w0.zip implInit).all (fun p => sameTrees p.1.typeTree p.2)
